@@ -107,12 +107,16 @@ class Env:
         self.seq: Set[str] = set()            # names known to hold a string / list (their `+` is concatenation)
         self._active: List[str] = []
         self.depth = 0                        # nesting depth of bound variables (comprehensions / lambdas), for alpha-renaming
+        self.resolver = None                  # optional: call node -> (parameter names, actual argument nodes, return expression) of a one-line helper
+        self.inline_depth = 0
 
     def child(self, **kw) -> "Env":
         e = Env(self.defs, self.rename, self.loops, self.keep)
         e.values = dict(self.values)
         e.seq = set(self.seq)
         e.depth = self.depth
+        e.resolver = self.resolver
+        e.inline_depth = self.inline_depth
         for k, v in kw.items():
             getattr(e, k).update(v)
         return e
@@ -383,6 +387,31 @@ def _sym(e: ast.AST, env: Env) -> Poly:
             fname = e.func.id
         if fname in TRANSPARENT_CALLS and len(e.args) == 2:
             return _sym(e.args[1], env)
+        if env.resolver is not None and env.inline_depth < 2:
+            r = env.resolver(e)
+            if r is not None:
+                params, actuals, ret_expr, pre = r
+                if pre is None:
+                    # a helper with branches: propagate forward through its body with the parameters bound to the actuals
+                    fn_node, ret_stmt = ret_expr
+                    base = Env(rename=env.rename)
+                    base.resolver = env.resolver
+                    base.inline_depth = env.inline_depth + 1
+                    snaps = forward(fn_node, base, {pn: _sym(a, env) for pn, a in zip(params, actuals)})
+                    return _sym(ret_stmt.value, snaps[id(ret_stmt)])
+                inner = Env(rename=env.rename)
+                inner.depth = env.depth
+                inner.resolver = env.resolver
+                inner.inline_depth = env.inline_depth + 1
+                for pn, a in zip(params, actuals):
+                    inner.values[pn] = _sym(a, env)
+                    if _is_seq(a, env):
+                        inner.seq.add(pn)
+                for nm, ex in pre:
+                    inner.values[nm] = _sym(ex, inner)
+                    if _is_seq(ex, inner):
+                        inner.seq.add(nm)
+                return _sym(ret_expr, inner)
         if fname in ("map", "filter") and fname not in env.values and not e.keywords and len(e.args) == 2 and isinstance(e.args[0], ast.Lambda) \
                 and len(e.args[0].args.args) == 1 and not e.args[0].args.defaults:
             lam = e.args[0]
@@ -528,7 +557,7 @@ def _assigned_names(stmts) -> Set[str]:
     return out
 
 
-def forward(fn_node: ast.AST, base: Optional[Env] = None) -> Dict[int, Env]:
+def forward(fn_node: ast.AST, base: Optional[Env] = None, init: Optional[Dict[str, "Poly"]] = None) -> Dict[int, Env]:
     """id(stmt) -> environment holding the symbolic value of every local name *before* that statement.
     Names whose value is not a single known expression at that point (loop-carried, disagreeing branches)
     are atoms named after themselves."""
@@ -536,6 +565,10 @@ def forward(fn_node: ast.AST, base: Optional[Env] = None) -> Dict[int, Env]:
     start = Env(rename=(base.rename if base else None))
     if base is not None:
         start.keep |= base.keep
+        start.resolver = base.resolver
+        start.inline_depth = base.inline_depth
+    if init:
+        start.values.update(init)
 
     def bind(env: Env, target: ast.AST, value: Optional[ast.AST], value_poly: Optional[Poly] = None):
         if isinstance(target, ast.Name):
@@ -665,9 +698,16 @@ def forward(fn_node: ast.AST, base: Optional[Env] = None) -> Dict[int, Env]:
 def _accumulator(st: ast.For, env: Env):
     """for T in XS: [if C:] acc.append(E)   with acc currently the empty list  ->  (acc, normal form of [E for T in XS if C]);
     also  acc.extend(E)  ->  the flattened comprehension, and  acc += [E]."""
-    if st.orelse or len(st.body) != 1:
+    if st.orelse or not st.body:
         return None
-    inner = st.body[0]
+    # leading per-iteration locals (NAME = EXPR) are substituted into the element
+    pre = []
+    for b in st.body[:-1]:
+        if isinstance(b, ast.Assign) and len(b.targets) == 1 and isinstance(b.targets[0], ast.Name):
+            pre.append((b.targets[0].id, b.value))
+        else:
+            return None
+    inner = st.body[-1]
     conds = []
     while isinstance(inner, ast.If) and not inner.orelse and len(inner.body) == 1:
         conds.append(inner.test)
@@ -682,6 +722,21 @@ def _accumulator(st: ast.For, env: Env):
         return None
     if any(isinstance(n, ast.Name) and n.id == acc for n in ast.walk(elt)):
         return None
+    if pre:
+        class _Sub(ast.NodeTransformer):
+            def __init__(self, m):
+                self.m = m
+
+            def visit_Name(self, node):
+                if isinstance(node.ctx, ast.Load) and node.id in self.m:
+                    return self.m[node.id]
+                return node
+        import copy as _copy
+        m = {}
+        for nm, ex in pre:
+            m[nm] = _Sub(dict(m)).visit(_copy.deepcopy(ex))
+        elt = _Sub(m).visit(_copy.deepcopy(elt))
+        conds = [_Sub(m).visit(_copy.deepcopy(c)) for c in conds]
     txt = _comp(elt, [(st.target, st.iter, conds)], env)
     if flat:
         txt = "flatten(%s)" % txt
